@@ -15,12 +15,22 @@ Added probe families (s1):
     multiples of their alignment, followed by more data, and vice versa; the round-trip predicate is evaluated on the real
     code (s1_mixed).  Inputs on which an aligned structure's tail alignment runs past its declared size are a pending
     finding are classified by its signature (F43, F44).
+
+Added probe family (u1):
+  * array forms x element types (harness/u1_arrays.py, `array_forms`): every array form - a[k], a[expression over an earlier member],
+    a[], a[EOF], a[k][2], a[EOF][2] - with every scalar element type of the built-in type table (read off the live table: canonical
+    types, every alias of the one byte types, a sample / in the thorough tier all of the other aliases) and an enum and a flag over
+    every integer type; as a member (`struct { n; ELEM a[..]; tail; }`, to-end-of-stream forms last, interpreted and compiled) and as a
+    stand-alone array type (typedef and `cs.resolve(ELEM)[..]`).  Values: parsed from valid-by-construction bytes in which most
+    elements have their most significant bit set (in aligned structures ending in a[EOF] the element count makes the structure end
+    aligned, so known finding F30 does not apply and the case is checked strictly), and constructed directly from Python values at
+    the edges of the element type.  Flags over signed types with sign-bit inputs are C12's known finding F22 (classified, not skipped).
 """
 from __future__ import annotations
 
 import itertools
 
-from .. import defs, impl, refimpl, s1_hist, s1_mixed
+from .. import defs, impl, refimpl, s1_hist, s1_mixed, u1_arrays
 from ..common import Result, mkrng
 from ..structprops import Engine, load, real_parse, small_unit_bits, rand_bytes, has_eof, has_union, union_dump_incomplete, union_anon_nested
 
@@ -229,6 +239,125 @@ def mixed_alignment(eng, res, rnd, tier):
                 res.feat("mixed-align:values")
 
 
+def check_constructed(eng, res, L, tree, obj, sigs, *, key, what):
+    """the predicate on a value constructed directly: dumps must succeed, parsing dumps(v) must return v and consume it all"""
+    T = L.T
+    v = impl.canon(obj)
+    res.count((*key, "constructed", repr(v)), True)
+    cd = eng.case_data(L, value=str(v)[:400], constructed=what)
+    d = impl.dump(T, obj)
+    if d[0] != "ok":
+        eng.report(f"a constructed value ({what}) cannot be dumped: {d[1]}", cd, sigs)
+        return
+    back, obj2 = real_parse(T, d[1] + (b"" if has_eof(tree) else b"\xEE\xEE"))
+    if back[0] != "ok":
+        eng.report(f"dumps(v) of a constructed value ({what}) cannot be parsed back: {back[1]}; dumps(v) = {d[1].hex()}", cd, sigs)
+    elif not impl.same_val(v, back[1], ignore_union_buf=True) or obj2 != obj or back[2] != len(d[1]):
+        eng.report(f"constructed value ({what}): parse(dumps(v)) = {str(back[1])[:250]} consuming {back[2]} of {len(d[1])}; v = {str(v)[:250]}, "
+                   f"dumps(v) = {d[1].hex()}", cd, sigs)
+    else:
+        eng.model_write(L, v, d, "dumps of a constructed value", sigs)
+
+
+def array_forms(eng, res, rnd, tier):
+    """every array form x every scalar element type of the built-in table (and enums / flags over every integer type), as a
+    member and as a stand-alone array type; values parsed from valid-by-construction bytes whose elements mostly have their top
+    bit set, and values constructed from Python values at the edges of the element type (harness/u1_arrays.py)"""
+    pre = u1_arrays.preamble()
+    elems = u1_arrays.elements(rnd, tier)
+    allcfg = [(e, a) for e in "<>" for a in (False, True)]
+    for ei, elem in enumerate(elems):
+        kind, esize, signed, _, is_flag = u1_arrays.info(elem)
+        label = f"{elem[1]}" + ("" if u1_arrays.table().get(elem[1], elem[1]) == elem[1] else f"(={u1_arrays.table()[elem[1]]})")
+        for endian, align in (allcfg if tier != "quick" else rnd.sample(allcfg, 2)):
+            ptr = rnd.choice(["uint64", "uint32"])
+            sess = impl.Session(endian=endian, pointer=ptr)
+            sess.load_text(pre)
+            res.feat("array-forms:instances")
+            # ---- as a member
+            for form in u1_arrays.FORMS:
+                for compiled in ((False, True) if tier != "quick" or form in ("eof", "null") else (rnd.random() < 0.5,)):
+                    tree, plan = u1_arrays.member_tree(rnd, elem, form)
+                    name = f"M_{form}_{int(compiled)}"
+                    try:
+                        L = sess.load(tree, name, compiled=compiled, align=align)
+                    except Exception as e:  # noqa: BLE001
+                        res.feat(f"array-forms:definition-rejected:{form}:{kind}:{type(e).__name__}")
+                        continue
+                    L.ty_sexp = lambda tree=tree, T=L.T, align=align: u1_arrays.ty_sexp(tree, T, align)
+                    res.feat(f"array-forms:member:{form}:{kind}" + (":signed" if signed else ""))
+                    key = ("array-forms", label, form, endian, align, compiled)
+                    for _i in range(2):
+                        data, ntop, aligned_end = u1_arrays.member_input(rnd, elem, plan, endian, align)
+                        sigs = []
+                        if align and form in ("eof", "eof2d") and not aligned_end:
+                            sigs.append("F30")
+                        if is_flag and signed:
+                            sigs.append("F22")   # the inputs have elements with the sign bit set
+                        sess.note(f"v = cs.{name}(bytes.fromhex({data.hex()!r})); assert cs.{name}(v.dumps()) == v")
+                        if check_roundtrip(eng, res, L, tree, data, sigs, key=key) is not None:
+                            res.feat("array-forms:parsed values" + (" with top-bit elements" if ntop else ""))
+                    # constructed values
+                    n = plan["k"] if form in ("fixed", "fixed2d") else rnd.choice([1, 2, 3, 4, 6])
+                    if align and form in ("eof", "eof2d"):
+                        n = 8      # any element size times 8 (rows of 2: times 16) is a multiple of every alignment: no tail padding
+                    val = u1_arrays.constructed(rnd, sess.cs, elem, form, n)
+                    if val is None:
+                        res.feat("array-forms:constructed:element type refuses an edge value (not run)")
+                        continue
+                    nval = n + plan["expr"][1] if form == "expr" else rnd.choice([n, 0, 0x7F])
+                    try:
+                        kw = {"n": nval, "a": val}
+                        if plan["tail"]:
+                            kw["tail"] = 0x7F
+                        obj = L.T(**kw)
+                    except Exception as e:  # noqa: BLE001
+                        res.feat(f"array-forms:constructed:constructor-raised:{type(e).__name__}")
+                        continue
+                    res.feat(f"array-forms:constructed:{form}:{kind}")
+                    sess.note(f"v = cs.{name}(n={nval}, a={val!r}" + (", tail=0x7f" if plan["tail"] else "") + f"); assert cs.{name}(v.dumps()) == v")
+                    # (elements of dynamic size - LEB128 - cannot be counted so that an aligned structure ends aligned: F30 territory)
+                    csigs = ["F30"] if align and form in ("eof", "eof2d") and esize is None else []
+                    check_constructed(eng, res, L, tree, obj, csigs, key=key, what=f"{label} a<{form}> = {str(val)[:120]}")
+            # ---- as a stand-alone array type
+            for form, t, text, k in u1_arrays.standalone_types(rnd, sess, elem, f"A{ei}"):
+                n = k if k is not None else rnd.choice([1, 2, 3, 5])
+                body, ntop = u1_arrays.element_run(rnd, elem, form, endian, n)
+                foreign = b"" if form in ("eof", "eof2d") else b"\xEE\xEE"
+                res.feat(f"array-forms:standalone:{form}:{kind}" + (":signed" if signed else ""))
+                sigs = ["F22"] if is_flag and signed else []
+                cases = [("parsed", body)]
+                val = u1_arrays.constructed(rnd, sess.cs, elem, form, n)
+                if val is not None:
+                    cases.append(("constructed", val))
+                for origin, x in cases:
+                    cd = {"history": list(sess.steps), "type": text, "endian": endian, origin: x.hex() if origin == "parsed" else repr(x)[:300]}
+                    if origin == "parsed":
+                        r = impl.parse(t, x + foreign)
+                        if r[0] != "ok":
+                            res.feat("input-rejected:" + r[1])
+                            continue
+                        v, obj = impl.canon(r[1]), r[1]
+                        if impl.contains_nan(v):
+                            continue
+                        cd["repro"] = sess.script([f"t = {text}; v = t(bytes.fromhex({(x + foreign).hex()!r})); d = t.dumps(v); assert t(d) == v"])
+                    else:
+                        v, obj = impl.canon(x), x
+                        cd["repro"] = sess.script([f"t = {text}; v = {x!r}; d = t.dumps(v); assert t(d) == v"])
+                    res.count(("array-forms-standalone", label, text, endian, origin, repr(v)), True)
+                    d = impl.dump(t, obj)
+                    if d[0] != "ok":
+                        eng.report(f"a {origin} {text} value of {label} cannot be dumped: {d[1]}; v = {str(v)[:200]}", cd, sigs if origin == "parsed" else [])
+                        continue
+                    back = impl.parse(t, d[1] + foreign)
+                    if back[0] != "ok" or not impl.same_val(v, impl.canon(back[1])) or back[1] != obj or back[2] != len(d[1]):
+                        eng.report(f"{text} of {label} ({origin} value): parse(dumps(v)) = {str(impl.canon(back[1]))[:200] if back[0] == 'ok' else back} "
+                                   f"consuming {back[2] if back[0] == 'ok' else '-'} of {len(d[1])}; v = {str(v)[:200]}, dumps(v) = {d[1].hex()}",
+                                   cd, sigs if origin == "parsed" else [])
+        if len(eng.lines) > 4000:
+            eng.flush()
+
+
 def run(env) -> Result:
     res = Result()
     res.rule = ("seeded random definition trees (all scalar table types and aliases, enums/flags, pointers, fixed/expression/null-terminated/EOF "
@@ -236,7 +365,9 @@ def run(env) -> Result:
                 "width; values: parsed from random bytes (3 buffers) and constructed (every integer-like leaf set to min, max, min-1, max+1). "
                 "Predicates: parse(dumps(v)) == v with exact consumption; out-of-range integers raise. Plus histories on one instance (parse/"
                 "dump, cs.endian switched, parse/dump, values carried across the switch; structures and standalone types) and mixed "
-                "alignment modes (sub-definitions loaded with their own align flag). distinct = (definition, config, value "
+                "alignment modes (sub-definitions loaded with their own align flag) and the product array form x element type (every entry of "
+                "the built-in type table, enums / flags over every integer type; member and stand-alone array type; values parsed from bytes "
+                "with top-bit-set elements and constructed at the edges of the element type). distinct = (definition, config, value "
                 "bytes); non-trivial = >= 2 fields or a composite field and >= 2 bytes")
     eng = Engine(env, res, "C01")
     rnd = mkrng(env["seed"], "c01")
@@ -310,6 +441,8 @@ def run(env) -> Result:
             eng.flush()
     endian_histories(eng, res, mkrng(env["seed"], "c01-endian-history"), tier)
     mixed_alignment(eng, res, mkrng(env["seed"], "c01-mixed-align"), tier)
+    eng.flush()
+    array_forms(eng, res, mkrng(env["seed"], "c01-array-forms"), tier)
     eng.flush()
     return res
 
